@@ -378,6 +378,55 @@ func scribble(v reflect.Value) {
 	}
 }
 
+// growInto does what append does when there is room: it writes into the spare capacity of every []int a fresh result
+// consists of (the result itself, the members of a [][]int or [2][]int, the values of a map[int][]int), and zero values into the spare capacity of slices of maps or slices. The elements of
+// the results and the arguments must not notice: pieces of one result, two results, a result and an argument do not lie
+// in each other's spare capacity.
+func growInto(v reflect.Value, depth int) {
+	switch v.Kind() {
+	case reflect.Interface, reflect.Pointer:
+		if !v.IsNil() {
+			growInto(v.Elem(), depth)
+		}
+	case reflect.Slice:
+		if v.IsNil() {
+			return
+		}
+		full := v.Slice3(0, v.Cap(), v.Cap())
+		for i := v.Len(); i < v.Cap(); i++ {
+			if el := full.Index(i); el.Kind() == reflect.Int {
+				el.SetInt(-8888)
+			} else if el.CanSet() {
+				el.Set(reflect.Zero(el.Type())) // a nil map / nil slice where a neighbour's element may have been
+			}
+		}
+		if v.Type().Elem().Kind() == reflect.Int {
+			return
+		}
+		if depth == 0 {
+			for i := 0; i < v.Len(); i++ {
+				growInto(v.Index(i), 1)
+			}
+		}
+	case reflect.Array:
+		if depth == 0 {
+			for i := 0; i < v.Len(); i++ {
+				growInto(v.Index(i), 1)
+			}
+		}
+	case reflect.Map:
+		if depth == 0 {
+			for _, k := range v.MapKeys() {
+				growInto(v.MapIndex(k), 1)
+			}
+		}
+	case reflect.Struct: // withErr{value, error text}
+		for i := 0; i < v.NumField(); i++ {
+			growInto(v.Field(i), depth)
+		}
+	}
+}
+
 // renderRes renders a result over its length (what a caller observes).
 func renderRes(v any) string {
 	switch x := v.(type) {
@@ -830,6 +879,21 @@ func prop(c Case, r *pbt.R) error {
 	// (-7777, a value no argument holds) and repeats every call: no answer may contain that value (the library keeps no
 	// reference to a result it handed out) and the arguments are still what they were.
 	final := e.snap()
+	for k := range results {
+		if results[k].h.class == clFresh {
+			growInto(reflect.ValueOf(results[k].val), 0)
+		}
+	}
+	for _, er := range results {
+		if er.h.class == clFresh {
+			if now := renderRes(er.val); now != er.snap {
+				return fmt.Errorf("%v: after the caller wrote into the spare capacity of the fresh results (as append does), the result of call %d %s reads %s, it was %s: two pieces handed out lie in each other's spare capacity", c, er.idx, er.h.name, now, er.snap)
+			}
+		}
+	}
+	if now := e.snap(); now != final {
+		return fmt.Errorf("%v: writing into the spare capacity of the fresh results (as append does) changed an argument", c)
+	}
 	for k := range results {
 		if results[k].h.class == clFresh {
 			scribble(reflect.ValueOf(results[k].val))
